@@ -248,4 +248,137 @@ theorem C01_history [TransCmp cmp] {srt : List α → List α} (hs : SortCompact
     run cmp srt [] ops = SortedSet.run cmp srt [] ops :=
   run_refines hs [] [] ops (fun _ => Or.inr ⟨rfl, rfl⟩)
 
+/-! ## the concrete sort + compact of the driver meets the specification -/
+
+theorem compactFrom_spec [TransCmp cmp] : ∀ (l : List α) (x : α),
+    (x :: l).Pairwise (fun a b => (cmp a b != .gt) = true) →
+    Asc cmp (compactFrom cmp x l) ∧ (∀ z ∈ compactFrom cmp x l, z ∈ x :: l) ∧
+    (∀ z ∈ compactFrom cmp x l, (cmp x z != .gt) = true) ∧
+    (∀ k ∈ x :: l, ∃ z ∈ compactFrom cmp x l, cmp k z = .eq) := by
+  intro l
+  induction l with
+  | nil =>
+    intro x _
+    simp [compactFrom, Asc, Std.ReflCmp.compare_self (cmp := cmp)]
+  | cons y rest ih =>
+    intro x hp
+    have hxy : (cmp x y != .gt) = true := (List.pairwise_cons.mp hp).1 y (by simp)
+    have hxr : ∀ z ∈ rest, (cmp x z != .gt) = true := fun z hz => (List.pairwise_cons.mp hp).1 z (by simp [hz])
+    have hyr : (y :: rest).Pairwise (fun a b => (cmp a b != .gt) = true) := (List.pairwise_cons.mp hp).2
+    by_cases he : cmp x y = .eq
+    · have hp' : (x :: rest).Pairwise (fun a b => (cmp a b != .gt) = true) :=
+        List.pairwise_cons.mpr ⟨hxr, (List.pairwise_cons.mp hyr).2⟩
+      obtain ⟨h1, h2, h3, h4⟩ := ih x hp'
+      simp only [compactFrom, he, beq_self_eq_true, if_true]
+      refine ⟨h1, fun z hz => ?_, h3, fun k hk => ?_⟩
+      · rcases List.mem_cons.mp (h2 z hz) with rfl | h
+        · simp
+        · simp [h]
+      · rcases List.mem_cons.mp hk with rfl | hk
+        · exact h4 k (by simp)
+        · rcases List.mem_cons.mp hk with rfl | hk
+          · obtain ⟨z, hz, hxz⟩ := h4 x (by simp)
+            exact ⟨z, hz, TransCmp.eq_trans (OrientedCmp.eq_symm he) hxz⟩
+          · exact h4 k (by simp [hk])
+    · have hlt : cmp x y = .lt := by
+        cases hc : cmp x y with
+        | lt => rfl
+        | eq => exact absurd hc he
+        | gt => rw [hc] at hxy; simp at hxy
+      obtain ⟨h1, h2, h3, h4⟩ := ih y hyr
+      have hne : (cmp x y == .eq) = false := by rw [hlt]; decide
+      simp only [compactFrom, hne, Bool.false_eq_true, if_false]
+      refine ⟨List.pairwise_cons.mpr ⟨fun z hz => ?_, h1⟩, fun z hz => ?_, fun z hz => ?_, fun k hk => ?_⟩
+      · have hyz : (cmp y z).isLE := by
+          have := h3 z hz
+          cases hc : cmp y z <;> simp [hc] at this ⊢
+        exact TransCmp.lt_of_lt_of_isLE hlt hyz
+      · rcases List.mem_cons.mp hz with rfl | hz
+        · simp
+        · exact List.mem_cons_of_mem _ (h2 z hz)
+      · rcases List.mem_cons.mp hz with rfl | hz
+        · rw [Std.ReflCmp.compare_self (cmp := cmp)]; decide
+        · have hyz : (cmp y z).isLE := by
+            have := h3 z hz
+            cases hc : cmp y z <;> simp [hc] at this ⊢
+          rw [TransCmp.lt_of_lt_of_isLE hlt hyz]; decide
+      · rcases List.mem_cons.mp hk with rfl | hk
+        · exact ⟨k, by simp, Std.ReflCmp.compare_self (cmp := cmp)⟩
+        · obtain ⟨z, hz, hkz⟩ := h4 k hk
+          exact ⟨z, List.mem_cons_of_mem _ hz, hkz⟩
+
+/-- stable merge sort followed by keeping the first key of every run of equivalent keys meets
+the specification of `slices.SortFunc` + `slices.CompactFunc` -/
+theorem sortCompact_spec [TransCmp cmp] : SortCompact cmp (sortCompact cmp) := by
+  have hsorted : ∀ ks : List α, (ks.mergeSort fun a b => cmp a b != .gt).Pairwise
+      (fun a b => (cmp a b != .gt) = true) := by
+    intro ks
+    apply List.pairwise_mergeSort
+    · intro a b c hab hbc
+      have h1 : (cmp a b).isLE := by cases hc : cmp a b <;> simp [hc] at hab ⊢
+      have h2 : (cmp b c).isLE := by cases hc : cmp b c <;> simp [hc] at hbc ⊢
+      have := TransCmp.isLE_trans h1 h2
+      cases hc : cmp a c <;> simp [hc] at this ⊢
+    · intro a b
+      cases hc : cmp a b with
+      | lt => simp
+      | eq => simp
+      | gt => have : cmp b a = .lt := OrientedCmp.gt_iff_lt.mp hc
+              simp [this]
+  refine ⟨fun ks => ?_, fun ks x hx => ?_, fun ks k hk => ?_⟩
+  all_goals
+    simp only [sortCompact, compact] at *
+    have hp := hsorted ks
+    cases hm : (ks.mergeSort fun a b => cmp a b != .gt) with
+    | nil =>
+      first
+      | (simp [Asc]; done)
+      | (rw [hm] at hx; simp [compact] at hx)
+      | (have : k ∈ (ks.mergeSort fun a b => cmp a b != .gt) := List.mem_mergeSort.mpr hk
+         rw [hm] at this; simp at this)
+    | cons y rest =>
+      rw [hm] at hp
+      obtain ⟨h1, h2, _, h4⟩ := compactFrom_spec rest y hp
+      first
+      | exact h1
+      | (rw [hm] at hx
+         have := h2 x hx
+         rw [← hm] at this
+         exact List.mem_mergeSort.mp this)
+      | (have : k ∈ (ks.mergeSort fun a b => cmp a b != .gt) := List.mem_mergeSort.mpr hk
+         rw [hm] at this
+         exact h4 k this)
+
+/-- **C01** for the sort+compact the driver executes -/
+theorem C01_history_driver [TransCmp cmp] (ops : List (Op α)) :
+    run cmp (sortCompact cmp) [] ops = SortedSet.run cmp (sortCompact cmp) [] ops :=
+  C01_history sortCompact_spec ops
+
+/-! ## non-vacuity
+
+A concrete history over ℕ ordered by `a/10` (so 12, 17 are equivalent and distinct), β = 0:
+bulk `New`, ascending `Add`s that force goat rebuilds, an `Add` and a `Replace` of an equivalent
+key (the stored representative is visible through `Get`), a two-child `Remove`, a `Clone` that
+then diverges from its original, a stopped iteration. -/
+
+def exCmp (a b : Nat) : Ordering := compare (a / 10) (b / 10)
+
+def exOps : List (Op Nat) :=
+  [.new 0 0 [12, 30, 50], .add 0 60, .add 0 70, .add 0 80, .add 0 90, .add 0 17, .get 0 10,
+   .replace 0 17, .get 0 10, .clone 1 0, .remove 0 50, .remove 1 12, .inorder 0 none, .inorder 1 none,
+   .inorderAfter 0 35 (some 2), .min 1, .max 0, .len 0, .new 2 1001 []]
+
+example : run exCmp id [] exOps =
+    [.unit, .bool true, .bool true, .bool true, .bool true, .bool false, .opt (some 12),
+     .bool false, .opt (some 17), .unit, .bool true, .bool true, .list [17, 30, 60, 70, 80, 90],
+     .list [30, 50, 60, 70, 80, 90], .list [30, 60], .opt (some 30), .opt (some 90), .nat 6, .panic] := by
+  decide
+
+example : SortedSet.run exCmp id [] exOps = run exCmp id [] exOps := by decide
+
+/-- the history above really rebuilds: after the ascending `Add`s the tree is not the right spine
+that plain BST insertion would build -/
+example : ((step exCmp id [] (.new 0 0 [10, 20])).1.get 0).bind (fun t =>
+    (t.add exCmp 30).bind fun p => (p.1.add exCmp 40).map fun q => q.1.root.height) = some 3 := by decide
+
 end MdsVerif.Props.C01
